@@ -8,7 +8,8 @@ import RrModel.Go.Res
   "wait" and the stale-while-revalidate re-entry.
   Written branch for branch:
     * the age base is `Revalidated` when it is non-zero, else `Created`;
-    * a non-zero `forceRevalidate` switches `skipRevalidate` off;
+    * (since the fix: commit for finding C08-c a non-zero `forceRevalidate` no longer switches
+      `skipRevalidate` off: the line `skipRevalidate = false` is gone);
     * s-maxage, else max-age, compared with `<=`;
     * `Expires` is looked at only when nothing has asked for revalidation yet AND the entry
       has never been revalidated; `time.Parse` failing twice leaves the zero `Time`, whose
@@ -100,7 +101,7 @@ def clientCheck (suffix : Option Bytes) (inm ims : Bytes) (stored : Header) : Re
 def decide (m : Entry) (now : Int) (force : Nat) (skipRevalidate : Bool)
     (inm ims : Bytes) (suffix : Option Bytes) : Res Decision :=
   let age := (ageOf m now).1
-  let skip := if force ≠ 0 then false else skipRevalidate
+  let skip := skipRevalidate
   let sr := shouldRevalidate m now force
   let tail : Res Decision :=
     let isStale := sr
